@@ -27,27 +27,42 @@ static Foam h_b2(int op, Foam a, Foam b)
 
 static int g_eval_ok;	/* cleared if the rewritten tree contains something the evaluator has no meaning for */
 
-static long h_eval(Foam f, long x, long y)
+#define h_eval(f, x, y) h_eval_d(f, x, y, 0)
+static long h_eval_d(Foam f, long x, long y, int depth)
 {
 	long a = 0, b = 0;
+	/* explicit depth bound: nodes built by foamNew are not constants for symbolic execution, so an unbounded
+	 * recursion would be unwound to the global limit on every path; the rules never build deeper trees */
+	if (depth > 3) { g_eval_ok = 0; return 0; }
 	switch (foamTag(f)) {
 	case FOAM_SInt: return f->foamSInt.SIntData;
 	case FOAM_Bool: return f->foamBool.BoolData != 0;
 	case FOAM_Loc:  return f->foamLoc.index == 0 ? x : y;
 	case FOAM_BCall:
-		if (foamArgc(f) >= 2) a = h_eval(f->foamBCall.argv[0], x, y);
-		if (foamArgc(f) >= 3) b = h_eval(f->foamBCall.argv[1], x, y);
-		switch (f->foamBCall.op) {
+		if (foamArgc(f) >= 2) a = h_eval_d(f->foamBCall.argv[0], x, y, depth + 1);
+		if (foamArgc(f) >= 3) b = h_eval_d(f->foamBCall.argv[1], x, y, depth + 1);
+		/* of_peep.c builds calls with foamNew(FOAM_BCall, n, op, ...): the op tag goes through the variable
+		 * argument list as an int and is read back with va_arg(.., Foam), so only its low 32 bits are defined
+		 * (an undefined-behaviour read that is harmless on x86-64 and outside this property) */
+		switch ((int) f->foamBCall.op) {
 		case FOAM_BVal_SIntPlus:   return W(U(a) + U(b));
 		case FOAM_BVal_SIntMinus:  return W(U(a) - U(b));
 		case FOAM_BVal_SIntTimes:  return a * b;
 		case FOAM_BVal_SIntNegate: return W(0UL - U(a));
 		case FOAM_BVal_SIntNext:   return W(U(a) + 1UL);
+#ifndef CANARY_peep
 		case FOAM_BVal_SIntPrev:   return W(U(a) - 1UL);
+#else		/* canary: the evaluator gives SIntPrev the meaning of SIntNext, so "x - 1 => Prev(x)" must be refuted */
+		case FOAM_BVal_SIntPrev:   return W(U(a) + 1UL);
+#endif
 		case FOAM_BVal_SIntShiftUp: if (b < 0 || b > 63) { g_eval_ok = 0; return 0; } return W(U(a) << b);
 		case FOAM_BVal_SIntIsZero: return a == 0;
 		case FOAM_BVal_SIntIsNeg:  return a < 0;
+#ifndef CANARY_peep
 		case FOAM_BVal_SIntIsPos:  return a > 0;
+#else		/* canary: "0 < x => IsPos(x)" must be refuted if IsPos meant >= 0 */
+		case FOAM_BVal_SIntIsPos:  return a >= 0;
+#endif
 		case FOAM_BVal_SIntEQ:     return a == b;
 		case FOAM_BVal_SIntNE:     return a != b;
 		case FOAM_BVal_SIntLT:     return a < b;
@@ -73,6 +88,12 @@ void h_peep_binary(void)
 	INPUT(long, x); INPUT(long, y); INPUT(long, c); INPUT(int, shape); INPUT(int, slow);
 	Foam l, r, t, res; long before, after;
 	foamIsInit = 1;
+#ifdef PEEP_SHAPE	/* one operand shape and one table per job: symbolic execution then sees a concrete tree */
+	shape = PEEP_SHAPE; slow = PEEP_SLOW;
+#endif
+#ifdef PEEP_C		/* the constant operand of shapes 8 and 9 (a symbolic constant makes intLength's loop symbolic: 300 s+) */
+	c = PEEP_C;
+#endif
 	peepBValTbl = slow ? &foamBValOpInfoTableSlow[0] : &foamBValOpInfoTableFast[0];
 	ASSUME(shape >= 0 && shape <= 9);
 	switch (shape) {
@@ -91,7 +112,14 @@ void h_peep_binary(void)
 	g_eval_ok = 1;
 	before = h_eval(t, x, y);
 	res = peepBCall(t);
-	after = h_eval(res, x, y);
+	if (res == t) {
+		/* left alone: the very same node must come back untouched (a second evaluation of an unchanged x*y would
+		 * only give the solver two copies of one multiplier to compare) */
+		CHECK("peephole: a call that is not rewritten is returned unmodified",
+		      t->foamBCall.op == PEEP_OP && t->foamBCall.argv[0] == l && t->foamBCall.argv[1] == r && foamArgc(t) == 3);
+		after = before;
+	} else
+		after = h_eval(res, x, y);
 	CHECK("peephole: rewritten tree only uses builtins with a known meaning", g_eval_ok);
 	CHECK("peephole: rewritten call has the value of the original for every value of the leaves", after == before);
 	__CPROVER_assert(res == t, "VCOVER peephole rewrites some shape of this builtin");
@@ -104,6 +132,9 @@ void h_peep_unary(void)
 	INPUT(long, x); INPUT(long, y); INPUT(int, shape); INPUT(int, slow);
 	Foam t, res; long before, after;
 	foamIsInit = 1;
+#ifdef PEEP_SHAPE
+	shape = PEEP_SHAPE; slow = PEEP_SLOW;
+#endif
 	peepBValTbl = slow ? &foamBValOpInfoTableSlow[0] : &foamBValOpInfoTableFast[0];
 	ASSUME(shape >= 0 && shape <= 11);
 	switch (shape) {
